@@ -153,11 +153,15 @@ def r13_1b(model: Model, rep: Report) -> None:
     problems = []
     n_cfg = 0
     undecided = 0
-    for k in range(0, 4):
-        for cfg in itertools.product(KINDS, repeat=k):
+    configs = [(cfg, None) for k in range(0, 4) for cfg in itertools.product(KINDS, repeat=k)]
+    # ... and the same factor given twice (a product is a multiset: x·x is not x)
+    configs += [(("Probability", "Probability"), (0, 0)), (("Sum", "Probability", "Sum"), (0, 1, 0)), (("Probability", "One", "Probability"), (0, 1, 0)),
+                (("Probability", "Probability", "Probability"), (0, 0, 0))]
+    for cfg, same in configs:
+        if True:
             n_cfg += 1
             ev = Evaluator(model)
-            els = [typed(ev, f"e{i}", ("cls", f"{DSL}.{c}")) for i, c in enumerate(cfg)]
+            els = [typed(ev, f"e{i if same is None else same[i]}", ("cls", f"{DSL}.{c}")) for i, c in enumerate(cfg)]
             try:
                 ps = dnf_paths(ev.run(f, {"expressions": ("listlit", tuple(els))}, self_term=("ref", f"{DSL}.Product")))
             except Exception as e:  # noqa: BLE001
@@ -192,10 +196,11 @@ def r13_1b(model: Model, rep: Report) -> None:
                     ok = seq is not None and seq[0] in ("listlit", "tuplelit") and sorted(map(repr, seq[1])) == sorted(map(repr, nonunit))
                 if not ok:
                     problems.append(f"{label} is {short(show(v), 100)}, must be a Product of exactly the non-unit factors")
-    if undecided:
-        rep.unknown("R13.1", construct(f, "summary"), f"{undecided} of {n_cfg} small-scope configurations do not reduce to a single outcome (idiom outside the folding rules)", loc(f))
-    elif problems:
+    if problems:
+        # a configuration that folds to a wrong outcome is a counterexample, whatever the others do
         rep.refuted("R13.1", construct(f, "summary"), "; ".join(problems[:4]), loc(f))
+    elif undecided:
+        rep.unknown("R13.1", construct(f, "summary"), f"{undecided} of {n_cfg} small-scope configurations do not reduce to a single outcome (idiom outside the folding rules)", loc(f))
     else:
         rep.proven("R13.1", construct(f, "summary"), loc=loc(f), sample={"configurations": n_cfg, "rule": "Zero absorbs; One is dropped; 0 factors -> One(); 1 -> itself; else Product of exactly the rest"})
     sa = SetAlg()
